@@ -26,6 +26,18 @@ C12.c  [nf]    window arithmetic against the reference model (Appendix A.11), by
 C12.d  [flow]  echo_recovery of the file-backed context is fresh per process; the
                challenge sent equals the value compared; an "unknown" persisted
                window stays uninitialised; is_initialized <=> _index is not None.
+C12.e  [shared] C13.e + C13.g: the file says "unknown" before the first strike-out after a
+               load is accepted; _load assumes an empty window only without a state file.
+               (The two groups are run independently: a refusal of one does not mask the other.)
+C12.f  [path]  the number handed to the window is the message's OWN partial IV.
+C12.g  [shared] C13.j: a persisted window is restored verbatim (a null window -- what a
+               clean stop writes while the context waits for its Echo exchange -- stays
+               uninitialised).
+C12.h  [joint] crash states of the state file: the set of file states _load takes for a
+               never-used context (unopened / undecoded / decoded, per feasible path to
+               initialize_empty) is disjoint from the set a crash inside _store can leave
+               (in-place write or non-durable rename -> undecoded; removal -> unopened).
+               Either site may change as long as the sets stay disjoint.
 
 Vocabulary (outside it the rule stops with an analysis error, never a verdict):
 window tests are calls `<w>.is_initialized()` / `<w>.is_valid(x)` used as branch
@@ -88,7 +100,7 @@ R = Rules(
         "bit clear), overshoot n-(lo+size-1) applied to both index and bitfield, bit 1<<(n-lo), callback after the "
         "mutation; echo_recovery is secrets.token_bytes(>=8) assigned on every path of "
         "FilesystemSecurityContext.__init__ and nowhere else, and a persisted window marked unknown stays "
-        "uninitialised.  Paper step: with these premises a number is struck out only when authentic and valid, a "
+        "uninitialised; a persisted window is restored verbatim (null stays uninitialised) and no state of sequence.json that a crash inside _store can leave behind is taken by _load for a never-used context.  Paper step: with these premises a number is struck out only when authentic and valid, a "
         "struck number is never valid again, and nothing is accepted while is_initialized() is false.  Acceptance "
         "of authentic numbers needs the AEAD to run and is not decided."
     ),
@@ -2209,9 +2221,18 @@ def d(ctx):
 # ---------------------------------------------------------------------------
 @R.clause("C12.e", "after an unclean stop the persisted window is not trusted: the first strike-out after a load marks the file 'unknown' before anything else is accepted (shared with C13.e / C13.g)")
 def e_shared(ctx):
+    # Two independent groups of obligations: one that cannot interpret the tree (analysis error) must not keep the other
+    # from deciding -- e.g. a _store outside the vocabulary of C13.e says nothing about what _load takes for a fresh
+    # context.  The refusal is still reported (re-raised) after the other group ran.
     from . import c13
-    c13.e(ctx)
-    c13.g_load_window(ctx)
+    refused = []
+    for part in (c13.e, c13.g_load_window):
+        try:
+            part(ctx)
+        except AnalysisError as e:
+            refused.append(str(e))
+    if refused:
+        raise AnalysisError("; ".join(refused))
 
 
 @R.clause("C12.f", "the number checked, struck out or used to re-initialise the window is the message's OWN partial IV: without one (a response re-using the request's) the sentinel None is used")
@@ -2307,6 +2328,266 @@ def f_own_piv(ctx):
             ctx.ob("that number is the integer value of the partial IV found in the OSCORE option", src_ok, fi, w,
                    detail="partial IV definitions reaching the conversion: %s" % [stmt_text(x) if x is not None else "<none/unreadable>" for x in srcs])
     ctx.floor("definitions that take a window number from a partial IV", n_taken, 1)
+
+
+# ---------------------------------------------------------------------------
+@R.clause("C12.g", "a persisted window comes back as it was written: an uninitialised (null) window stays uninitialised, every struck-out bit stays set (shared with C13.j)")
+def g_restored_verbatim(ctx):
+    """Necessary for C12 in its own right: the record a clean stop writes for a context that is still waiting for its
+    Echo exchange is the null window; if reloading it yields an *initialised* window, requests are accepted again
+    without any value freshly issued by this process having been echoed ("while the window is uninitialised no request is
+    accepted until ..."), and if a restored bitfield loses bits a number is accepted twice.  The condition decided by
+    C13.j -- ReplayWindow.initialize_from_persisted stores exactly the entries persist() wrote -- is that condition."""
+    from . import c13
+    c13.j_verbatim(ctx)
+
+
+# ---------------------------------------------------------------------------
+# C12.h: the state file between a crash in _store and the next _load
+#
+# Two sites maintain one invariant.  _load decides from the state file whether the context was ever used: only for a
+# never-used context may the window start initialised and empty (initialize_empty) -- a used one has accepted requests,
+# and each of them would be accepted once more.  _store is what leaves the file behind, at every point at which the
+# process can die.  Invariant: NO STATE OF THE FILE THAT _store CAN LEAVE BEHIND IS ONE THAT _load TAKES FOR "NEVER
+# USED".  Either site may change as long as the two sets stay disjoint, so both are computed:
+#
+#   what _load takes for "never used"  (per feasible path from the open() of the state file to initialize_empty):
+#     unopened   the open() itself failed (no such file);
+#     undecoded  the file was opened, but the statement that decodes it did not complete (an empty / truncated /
+#                unparsable file, however that is noticed: a size test, the decoder's exception, ...);
+#     decoded    the file was decoded completely (or never looked at).
+#   what _store can leave behind:
+#     decoded    always (that is its purpose);
+#     undecoded  when the file is written in place (opened for writing, truncated, copied onto), or when it is renamed
+#                into place before its content is durable (the obligations of C13.c: written, flushed, fsynced and
+#                closed before the rename, temp file on the same file system);
+#     unopened   when _store removes the file or moves it away.
+#
+# The state file is found from the reader (the file whose decoded content reaches initialize_from_persisted), effects
+# on it in _store by resolving every path argument (locals, properties, join / + / f-string spellings), never by names.
+
+_PATH_QUERIES = {
+    "os.path.exists", "os.path.lexists", "os.path.isfile", "os.path.getsize", "os.path.getmtime", "os.stat", "os.lstat", "os.access",
+    "os.fspath", "os.path.abspath", "os.path.realpath", "os.path.basename", "os.path.dirname", "os.path.normpath", "str", "repr",
+    "os.path.islink", "os.path.samefile", "os.chmod", "os.chown", "os.utime",
+}
+_PATH_REMOVERS = {"os.remove", "os.unlink"}
+_PATH_OVERWRITERS = {"os.truncate": 0, "shutil.copy": 1, "shutil.copyfile": 1, "shutil.copy2": 1, "shutil.move": 1, "os.link": 1, "os.symlink": 1}
+_OPENERS = {"open", "io.open", "codecs.open"}
+
+
+def _open_mode(prog, fi, c13kit, call, index=1):
+    """'read' / 'write' for an open()-like call (mode at position `index` or by keyword), None when the mode cannot be
+    resolved"""
+    mode = call_arg(call, ["file", "mode"][1 - index:], index)
+    if mode is None:
+        return "read"
+    s = c13kit.const_str(prog, fi, mode)
+    if s is None:
+        return None
+    return "write" if any(ch in s for ch in "wax+") else "read"
+
+
+def _state_file_effects(ctx, c13kit, unit, is_path):
+    """[(kind, call, text)] for every call in the unit of _store (the function and, transitively, the methods of its
+    class it calls through self) that is handed the state file's path: kind in 'onto' (renamed onto it: atomic),
+    'inplace' (its content is changed in place), 'gone' (removed / moved away), 'query' (no effect).  The path is
+    recognised by resolution (`is_path(fi, expr)`), or as a parameter that some call site in the unit binds to it.  A
+    call the rule cannot classify stops the clause (analysis error)."""
+    prog = ctx.prog
+    bound = {short: set() for short in unit}  # parameters that hold the state file's path
+
+    def is_target(g, a):
+        if isinstance(a, ast.Name) and a.id in bound[g.short] and not writes_to_name(g.node, a.id):
+            return True
+        return is_path(g, a)
+
+    for _ in range(3):  # parameter bindings, to a fixed point over (short) call chains
+        for callee, (g, sites) in unit.items():
+            pn = params(g)
+            for h, c in sites:
+                for i, nm in enumerate(pn):
+                    a = call_arg(c, pn, i)
+                    if a is not None and is_target(h, a):
+                        bound[callee].add(nm)
+    own_calls = {id(c) for _g, sites in unit.values() for _h, c in sites}
+    out = []
+    for short, (g, _sites) in sorted(unit.items()):
+        for c in calls_in(g.node):
+            args = [(i, a) for i, a in enumerate(c.args) if not isinstance(a, ast.Starred)] + [(k.arg, k.value) for k in c.keywords if k.arg]
+            hit = [i for i, a in args if is_target(g, a)]
+            recv = None
+            if isinstance(c.func, ast.Attribute) and isinstance(c.func.value, ast.Call) and (c13kit.qual(g, c.func.value.func) or "").split(".")[-1] in ("Path", "PurePath") \
+                    and len(c.func.value.args) == 1 and is_target(g, c.func.value.args[0]):
+                recv = c.func.attr  # pathlib.Path(<state file>).<method>(...)
+            if not hit and recv is None:
+                continue
+            if id(c) in own_calls:
+                continue  # a method of the unit: its body is looked at with the parameter bound
+            q = c13kit.qual(g, c.func) or ""
+            where = g.short.rsplit(".", 1)[-1]
+            if recv is not None:
+                if recv in ("write_text", "write_bytes", "touch"):
+                    out.append(("inplace", c, "%s() on the state file" % recv))
+                elif recv in ("unlink", "rename", "replace"):
+                    out.append(("gone", c, "%s() of the state file" % recv))
+                elif recv == "open":
+                    m = _open_mode(prog, g, c13kit, c, index=0)
+                    ctx.need(m is not None, "%s opens the state file with a mode the rule cannot resolve: %s" % (where, stmt_text(c, 60)))
+                    out.append(("inplace" if m == "write" else "query", c, "the state file itself is opened for writing"))
+                elif recv in ("exists", "is_file", "stat", "read_text", "read_bytes"):
+                    out.append(("query", c, ""))
+                else:
+                    ctx.need(False, "%s calls %s on the state file's path; the rule does not know what that does to the file" % (where, recv))
+                continue
+            if q in ("os.replace", "os.rename"):
+                src, dst = call_arg(c, ["src", "dst"], 0), call_arg(c, ["src", "dst"], 1)
+                ctx.need(src is not None and dst is not None, "%s renames the state file with arguments the rule cannot read: %s" % (where, stmt_text(c, 60)))
+                if is_target(g, dst):
+                    out.append(("onto", c, "renamed onto"))
+                if is_target(g, src):
+                    out.append(("gone", c, "the state file is renamed away"))
+            elif q in _OPENERS and 0 in hit:
+                m = _open_mode(prog, g, c13kit, c)
+                ctx.need(m is not None, "%s opens the state file with a mode the rule cannot resolve: %s" % (where, stmt_text(c, 60)))
+                out.append(("inplace" if m == "write" else "query", c, "the state file itself is opened for writing"))
+            elif q == "os.open" and 0 in hit:
+                flags = {n.attr if isinstance(n, ast.Attribute) else n.id for a in c.args[1:2] for n in ast.walk(a) if isinstance(n, (ast.Attribute, ast.Name))}
+                if flags and flags <= {"os", "O_RDONLY", "O_CLOEXEC", "O_BINARY", "O_NOFOLLOW"}:
+                    out.append(("query", c, ""))
+                else:
+                    ctx.need(any(f in flags for f in ("O_WRONLY", "O_RDWR", "O_TRUNC", "O_APPEND", "O_CREAT")),
+                             "%s os.open()s the state file with flags the rule cannot resolve: %s" % (where, stmt_text(c, 60)))
+                    out.append(("inplace", c, "the state file itself is opened for writing"))
+            elif q in _PATH_REMOVERS:
+                out.append(("gone", c, "the state file is removed"))
+            elif q in _PATH_OVERWRITERS:
+                if _PATH_OVERWRITERS[q] in hit:
+                    out.append(("inplace", c, "the state file is overwritten by %s" % q))
+                else:
+                    ctx.need(q != "shutil.move", "%s moves the state file away" % where)
+                    out.append(("query", c, ""))
+            elif q in _PATH_QUERIES or q == "os.path.join" or is_log_call(c):
+                out.append(("query", c, ""))
+            else:
+                ctx.need(False, "%s hands the state file's path to %s; the rule does not know what that does to the file" % (where, q or stmt_text(c.func, 40)))
+    return out
+
+
+_OPEN_ERRORS = ("FileNotFoundError", "OSError", "IOError", "EnvironmentError", "PermissionError", "IsADirectoryError", "NotADirectoryError")
+
+
+@R.clause("C12.h", "no state of the persisted file that a crash inside _store can leave behind is taken by _load for a never-used context (empty, initialised window)")
+def h_crash_states(ctx):
+    from . import c13, _kit_c13 as kit
+    from ..report import Ctx as _Ctx
+
+    prog = ctx.prog
+    lf = c13._fn(ctx, FSC + "._load")
+    # the state file: the one _load decodes into a local; when there are several, the one whose content reaches
+    # initialize_from_persisted
+    names = []
+    for c in calls_in(lf.node):
+        if kit.qual(lf, c.func) in _OPENERS and c.args:
+            jp = kit.path_parts(prog, lf, c.args[0])
+            if jp is not None and jp[1] not in names:
+                names.append(jp[1])
+    cands = [lm for lm in (c13._load_model(ctx, nm) for nm in names) if lm.var is not None]
+    if len(cands) > 1:
+        restores = mcalls(lf.node, "initialize_from_persisted")
+        linked = []
+        for lm in cands:
+            for r in restores:
+                a0 = kit.deep_resolve(lf.node, r.args[0], keep={lm.var}) if r.args else None
+                if a0 is not None and any(isinstance(x, ast.Name) and x.id == lm.var for x in ast.walk(a0)) and lm not in linked:
+                    linked.append(lm)
+        cands = linked
+    ctx.need(len(cands) == 1, "the file _load restores the replay window from is not a single `<local> = json.load(open(<dir>/<constant name>))` (%d candidates)" % len(cands))
+    lm = cands[0]
+    tname = kit.path_parts(prog, lf, lm.open_call.args[0])[1]
+    cfg = lm.cfg
+    rp = c13._load_paths(ctx, lm)
+
+    # ---- reader: what is taken for "never used"
+    empties = [c for c in calls_in(lf.node) if isinstance(c.func, ast.Attribute) and c.func.attr == "initialize_empty"]
+    called = {id(c.func) for c in empties}
+    refs = [n for n in walk_no_nested(lf.node) if isinstance(n, ast.Attribute) and n.attr == "initialize_empty" and id(n) not in called]
+    ctx.need(not refs, "_load takes initialize_empty as a value instead of calling it")
+    ctx.floor("initialize_empty sites in _load", len(empties), 1)
+    before_open = cfg.reach({cfg.entry}, avoid={lm.open_nid}, include_src=True)
+    # when one statement both opens and decodes (`x = json.load(open(p))`), its exceptional edge into a handler that
+    # catches more than the errors of open() may as well be the decoder's
+    decodes_too = lm.open_nid in set(cfg.locate(lm.load_stmt))
+
+    def open_failure(p, i):
+        """None, or the classes a failure of the opening statement before position i of path p stands for"""
+        for j in range(min(i, len(p.labels))):
+            if p.nodes[j] == lm.open_nid and p.labels[j] == "exc":
+                k = {"unopened"}
+                h = cfg.nodes[p.nodes[j + 1]]
+                hc = c13._handler_classes(h.ast) if h.kind == "handler" else None
+                if decodes_too and not (hc and all(x in _OPEN_ERRORS for x in hc)):
+                    k.add("undecoded")
+                return k
+        return None
+
+    classes = {}  # id(call) -> {class: example path | None}
+    for c in empties:
+        nids = [x for x in cfg.locate(c) if cfg.is_reachable(x)]
+        k = classes.setdefault(id(c), {})
+        if any(x in before_open for x in nids):
+            k.setdefault("decoded", None)  # reached without looking at the file at all
+        for p in rp.through(nids):
+            for i in p.positions(nids):
+                if c13._loaded_before(lm, p, i):
+                    k.setdefault("decoded", p)
+                    continue
+                for x in open_failure(p, i) or {"undecoded"}:
+                    k.setdefault(x, p)
+    taken = {x for k in classes.values() for x in k}
+
+    # ---- writer: what a crash can leave behind
+    sf = c13._fn(ctx, FSC + "._store")
+    unit = call_unit(prog, sf)
+    rdir = kit.full_resolve(prog, lf, lm.dir)
+
+    def is_path(g, a):
+        jp = kit.path_parts(prog, g, a)
+        return jp is not None and jp[1] == tname and same(kit.full_resolve(prog, g, jp[0]), rdir)
+
+    effects = _state_file_effects(ctx, kit, unit, is_path)
+    ctx.need(any(k in ("onto", "inplace") for k, _c, _t in effects), "_store does not write %s in a way the rule can see (rename onto it / open it for writing)" % tname)
+    gone = [(c, t) for k, c, t in effects if k == "gone"]
+    torn = ["%s (%s): a crash before the new content is complete leaves an empty or truncated file" % (t, stmt_text(c, 60)) for k, c, t in effects if k == "inplace"]
+    if "undecoded" in taken and not torn:
+        # the file only ever appears by a rename: it is complete when the renamed file was (C13.c, evaluated on a private
+        # context -- its verdicts count here only because _load relies on them)
+        sub = _Ctx(prog, ctx.pid, ctx.tier, True)
+        sub.clause = ctx.clause
+        refused = None
+        try:
+            c13.c(sub)
+        except AnalysisError as e:
+            refused = e
+        torn = ["the renamed file need not be complete and durable: %s (%s)" % (v.msg.split(":")[0], v.construct[:60]) for v in sub.violations]
+        if not torn and refused is not None:
+            raise AnalysisError("_load takes an undecodable state file for a never-used context, and whether _store can leave one could not be decided: %s" % refused)
+
+    for c in empties:
+        k = classes[id(c)]
+        if "decoded" in k:
+            p = k["decoded"]
+            ctx.ob("an empty (initialised) replay window is not assumed for a state file that was read completely", False, lf, c,
+                   detail="reached %s" % ("without opening the file" if p is None else "after the file was decoded: %s" % rp.describe(p)))
+        if "undecoded" in k:
+            ctx.ob("an empty, truncated or unparsable state file is taken for a never-used context only if _store can never leave one behind "
+                   "(atomic, durable replacement)", not torn, lf, c,
+                   detail=None if not torn else "path in _load: %s; _store: %s" % (rp.describe(k["undecoded"]), "; ".join(torn)))
+        if "unopened" in k:
+            ctx.ob("a missing state file means a never-used context: _store never removes the file or moves it away", not gone, lf, c,
+                   detail=None if not gone else "; ".join("%s (%s)" % (t, stmt_text(g, 60)) for g, t in gone))
+        if not k:
+            ctx.ob("initialize_empty in _load lies on no feasible path from the open() of the state file", True, lf, c)
 
 
 F = "aiocoap/oscore.py"
@@ -2408,3 +2689,93 @@ R.seed("C12.b", F, "        if replay_error is not None:\n            raise repl
 R.seed("C12.b", F, _STRIKE,
        "        if not is_response and seqno is not None:\n            if replay_error is None:\n                self.recipient_replay_window.strike_out(seqno)\n            replay_error = None\n",
        "`replay_error = None` shared by the nothing-pending arm (where it clears nothing) and the verdict-pending arm (where it accepts a replay)")
+
+# seeds for C12.g / C12.h
+R.seed("C12.g", F, "        self._index = persisted[\"index\"]\n        self._bitfield = persisted[\"bitfield\"]\n",
+       "        self._index = persisted[\"index\"] or 0\n        self._bitfield = persisted[\"bitfield\"] or 0\n",
+       "the null window a clean stop writes while the context waits for its Echo exchange comes back initialised and empty")
+
+_H_READ = "        except FileNotFoundError:\n"
+_H_MID1 = (
+    '            self.sender_sequence_number = 0\n'
+    '            self.recipient_replay_window.initialize_empty()\n'
+    '            self.replay_window_persisted = True\n'
+    '        else:\n'
+    '            self.sender_sequence_number = int(sequence["next-to-send"])\n'
+    '            received = sequence["received"]\n'
+    '            if received == "unknown":\n'
+    '                # The replay window will stay uninitialized, which triggers\n'
+    '                # Echo recovery\n'
+    '                self.replay_window_persisted = False\n'
+    '            else:\n'
+    '                try:\n'
+    '                    self.recipient_replay_window.initialize_from_persisted(received)\n'
+    '                except (ValueError, TypeError, KeyError):\n'
+    '                    # Not being particularly careful about what could go wrong: If\n'
+    "                    # someone tampers with the replay data, we're already in *big*\n"
+    '                    # trouble, of which I fail to see how it would become worse\n'
+    '                    # than a crash inside the application around "failure to\n'
+    '                    # right-shift a string" or that like; at worst it\'d result in\n'
+    '                    # nonce reuse which tampering with the replay window file\n'
+    '                    # already does.\n'
+    '                    raise self.LoadError(\n'
+    '                        "Persisted replay window state was not understood"\n'
+    '                    )\n'
+    '                self.replay_window_persisted = True\n'
+    '\n'
+    '    # This is called internally whenever a new sequence number is taken or\n'
+    '    # crossed out from the window, and blocks a lot; B.1 mode mitigates that.\n'
+    '    #\n'
+    '    # Making it async and block in a threadpool would mitigate the blocking of\n'
+    '    # other messages, but the more visible effect of this will be that no\n'
+    '    # matter if sync or async, a reply will need to wait for a file sync\n'
+    '    # operation to conclude.\n'
+    '    def _store(self):\n'
+)
+_H_TMP = (
+    '        tmphand, tmpnam = tempfile.mkstemp(\n'
+    '            dir=self.basedir, prefix=".sequence-", suffix=".json", text=True\n'
+    '        )\n'
+    '\n'
+)
+_H_MID2 = (
+    '        data = {"next-to-send": self.sequence_number_persisted}\n'
+    '        if not self.replay_window_persisted:\n'
+    '            data["received"] = "unknown"\n'
+    '        else:\n'
+    '            data["received"] = self.recipient_replay_window.persist()\n'
+    '\n'
+    '        # Using io.open (instead os.fdopen) and binary / write with encode\n'
+    '        # rather than dumps as that works even while the interpreter is\n'
+    '        # shutting down.\n'
+    '        #\n'
+    '        # This can be relaxed when there is a defined shutdown sequence for\n'
+    "        # security contexts that's triggered from the general context shutdown\n"
+    "        # -- but right now, there isn't.\n"
+)
+_H_WRITE = (
+    '        with io.open(tmphand, "wb") as tmpfile:\n'
+    '            tmpfile.write(json.dumps(data).encode("utf8"))\n'
+    '            tmpfile.flush()\n'
+    '            os.fsync(tmpfile.fileno())\n'
+    '\n'
+)
+_H_REPLACE = '        os.replace(tmpnam, os.path.join(self.basedir, "sequence.json"))\n'
+# two-site seeds: each half alone keeps the invariant (checked by hand: C12.h is silent on either half)
+R.seed("C12.h", F, _H_READ + _H_MID1 + _H_TMP + _H_MID2 + _H_WRITE + _H_REPLACE,
+       "        except (FileNotFoundError, ValueError):\n" + _H_MID1 + _H_MID2 +
+       '        target = os.path.join(self.basedir, "sequence.json")\n'
+       '        with open(target, "w") as out:\n'
+       '            json.dump(data, out)\n'
+       '            out.flush()\n'
+       '            os.fsync(out.fileno())\n',
+       "TWO-SITE: the state file is rewritten in place, and an unparsable one is taken for a never-used context: a crash during the rewrite resets the window")
+R.seed("C12.h", F, _H_READ + _H_MID1 + _H_TMP + _H_MID2 + _H_WRITE + _H_REPLACE,
+       "        except (OSError, json.JSONDecodeError):\n" + _H_MID1 + _H_TMP + _H_MID2 + _H_WRITE.replace("            os.fsync(tmpfile.fileno())\n", "") + _H_REPLACE,
+       "TWO-SITE: the temp file is renamed into place without fsync (it may surface empty after a power loss), and an undecodable file is taken for a never-used context")
+R.seed("C12.h", F, _H_REPLACE,
+       '        target = os.path.join(self.basedir, "sequence.json")\n'
+       '        if os.path.exists(target):\n'
+       '            os.remove(target)\n'
+       '        os.rename(tmpnam, target)\n',
+       "remove-then-rename: a crash in between leaves no state file, which _load takes for a never-used context")
